@@ -10,7 +10,7 @@ RULE = (
     "empty / list attribute values and custom separators; distinct = hash of the configuration; trivial = single row"
 )
 ASSUMPTIONS = ["decoder labels are unique single-line strings that do not start with a style segment", "custom styles use three distinct strings of equal width"]
-GATES = ["mon.C09.rows", "mon.C09.decoder", "mon.C09.text", "mon.C09.repr", "C09.depth_ge_4", "C09.last_under_nonlast", "C09.childiter_changes_last", "C09.multiline", "C09.empty_value", "C09.maxlevel_cuts", "C09.abandoned_iteration", "C09.nested_use", "C09.after_mutation", "C09.long_lived_rendertree", "mon.C09.raising_childiter", "C09.maxlevel_int_subclass", "C09.repr_failed_before"]
+GATES = ["mon.C09.rows", "C09.very_wide_node", "mon.C09.decoder", "mon.C09.text", "mon.C09.repr", "C09.depth_ge_4", "C09.last_under_nonlast", "C09.childiter_changes_last", "C09.multiline", "C09.empty_value", "C09.maxlevel_cuts", "C09.abandoned_iteration", "C09.nested_use", "C09.after_mutation", "C09.long_lived_rendertree", "mon.C09.raising_childiter", "C09.maxlevel_int_subclass", "C09.repr_failed_before"]
 
 
 def plan(tier, seed, jobs):
@@ -378,7 +378,11 @@ def run(ctx):
     for r in range(nrand):
         rng = ctx.rng("rand", r)
         n = rng.randint(8, 40)
-        par, kind = gen.random_tree(rng, n, "lastchild" if r % 4 == 0 else None)
+        wide = r % 29 == 5  # a node with more children than any small-int / fast-path threshold
+        if wide:
+            n = rng.choice((270, 300, 520))
+            ctx.count("C09.very_wide_node")
+        par, kind = gen.random_tree(rng, n, "star" if wide else "lastchild" if r % 4 == 0 else None)
         ch = gen.children_of(par)
         fam = TR.READ_FAMILIES[r % len(TR.READ_FAMILIES)]
         names = ["n%02d" % i for i in range(n)]
